@@ -10,8 +10,8 @@ MAXBUF = 1000
 HEADER = ('From Coq Require Import ZArith NArith List Bool. Import ListNotations.\n'
           'From EIO Require Import Server ServerRun.\nOpen Scope N_scope.\n')
 
-QUIRKS = {'threaded': dict(sentinel=True, read_timeout=False, concurrent_disc=False, batch=False),
-          'asyncio': dict(sentinel=False, read_timeout=True, concurrent_disc=True, batch=True)}
+QUIRKS = {'threaded': dict(sentinel=True, read_timeout=False, concurrent_disc=False, batch=False, twins=False),
+          'asyncio': dict(sentinel=False, read_timeout=True, concurrent_disc=True, batch=True, twins=True)}
 
 
 class Cfg:
@@ -28,9 +28,9 @@ class Cfg:
     def term(self, kind):
         q = QUIRKS[kind]
         return ('{| c_interval := %s; c_timeout := %s; c_async_handlers := %s; c_monitor := %s; c_allow_upgrades := %s; c_polling := %s; '
-                'c_websocket := %s; c_quirks := {| q_sentinel := %s; q_read_timeout := %s; q_concurrent_disc := %s; q_batch_timers := %s |} |}'
+                'c_websocket := %s; c_quirks := {| q_sentinel := %s; q_read_timeout := %s; q_concurrent_disc := %s; q_batch_timers := %s; q_timeout_wins := %s |} |}'
                 % (qZ(self.interval), qZ(self.timeout), qbool(self.async_handlers), qbool(self.monitor), qbool(self.allow_upgrades),
-                   qbool(self.polling), qbool(self.websocket), qbool(q['sentinel']), qbool(q['read_timeout']), qbool(q['concurrent_disc']), qbool(q['batch'])))
+                   qbool(self.polling), qbool(self.websocket), qbool(q['sentinel']), qbool(q['read_timeout']), qbool(q['concurrent_disc']), qbool(q['batch']), qbool(q['twins'])))
 
     def key(self):
         return (self.interval, self.timeout, self.async_handlers, self.monitor, self.allow_upgrades, self.polling, self.websocket)
